@@ -100,7 +100,8 @@ def run_one(m):
                 if ln.startswith('ANALYSIS-ERROR')]
         if m.get('kind', 'mutant') == 'neutral':
             ok = p.returncode == 0
-            outcome = 'SILENT' if ok else 'FALSE-ALARM'
+            outcome = 'SILENT' if ok else (
+                'FALSE-ALARM' if p.returncode == 1 else 'NOT-FOLLOWED')
         else:
             exp = m.get('expect')
             hit = [v for v in viol if (exp is None or exp in v)]
@@ -127,7 +128,7 @@ def run(props=None, jobs=16, only=None, quiet=False):
     with ThreadPoolExecutor(max_workers=jobs) as ex:
         results = list(ex.map(run_one, corpus))
     summary = {'mutants': 0, 'detected': 0, 'neutral': 0, 'silent': 0,
-               'stale': 0, 'misses': []}
+               'not_followed': 0, 'stale': 0, 'misses': []}
     for r in results:
         kind = r.get('kind', 'mutant')
         if r['outcome'] == 'STALE':
@@ -135,6 +136,7 @@ def run(props=None, jobs=16, only=None, quiet=False):
         elif kind == 'neutral':
             summary['neutral'] += 1
             summary['silent'] += int(r['outcome'] == 'SILENT')
+            summary['not_followed'] += int(r['outcome'] == 'NOT-FOLLOWED')
         else:
             summary['mutants'] += 1
             summary['detected'] += int(r['outcome'] == 'DETECTED')
